@@ -192,6 +192,9 @@ class IsaGen:
             rng.shuffle(use)
         if use and rng.random() < 0.1:
             use.append(rng.choice(params))
+        elif len(use) >= 1 and rng.random() < 0.06:
+            # a parameter the production ignores: its argument is still evaluated and range-checked
+            use.pop(rng.randrange(len(use)))
         for name, typ, subsize in use:
             pieces.append(self.gen_piece(name, typ, subsize))
             if rng.random() < 0.15:
